@@ -307,6 +307,13 @@ func (e *Engine) evalModifies(env *Env, m *Clause) modEntry {
 		for _, i := range index {
 			path = append(path, pathEl{field: i})
 		}
+		// interior pointers (address of an embedded/nested struct inside a heap
+		// object) are kept as (root object, path): the field lives in the root's maps
+		if ps, isPtr := p.V.(*PtrSV); isPtr && ps.Kind == pkHeap && len(ps.Path) > 0 {
+			full := append(append([]pathEl(nil), ps.Path...), path...)
+			_, suffix := e.typeAtPath(ps.Root, full)
+			return modEntry{kind: "field", typeKey: e.typeKey(ps.Root), suffix: suffix, ref: ps.Ref, text: m.Text}
+		}
 		_, suffix := e.typeAtPath(pt.Elem(), path)
 		return modEntry{kind: "field", typeKey: e.typeKey(pt.Elem()), suffix: suffix, ref: e.flatten(p.T, p.V)[0], text: m.Text}
 	case *ast.SliceExpr:
@@ -382,6 +389,22 @@ func (e *Engine) havocModifies(fr *Frame, st *State, env *Env, mc *Clause, cname
 	m := e.evalModifies(env, mc)
 	if m.kind == "ghost" {
 		st.ghost[m.name] = e.vc.declare("G_"+m.name, e.ghostSort(m.name))
+		return
+	}
+	if mc.Cond != nil {
+		// conditional frame entry: applies (and is checked) only when cond holds
+		cond := e.evalBool(env, mc.Cond)
+		saved := st.pc
+		st.pc = e.vc.define("pc", "Bool", and(saved, cond))
+		e.ensureMapsFor(env, mc, st)
+		e.frameCheckEntry(fr, st, m, cname)
+		st.pc = saved
+		for _, name := range e.mapsCovered(m) {
+			srt := e.vc.heapSort[name]
+			h := e.heapGet(st, name, srt)
+			nv := e.vc.declare("hv", arrayElemSort(srt))
+			e.heapSet(st, name, srt, fmt.Sprintf("(store %s %s (ite %s %s (select %s %s)))", h, m.ref, cond, nv, h, m.ref))
+		}
 		return
 	}
 	// make sure the maps the entry could touch exist: declare maps lazily by type info
